@@ -35,6 +35,8 @@ type bed struct {
 	WriteOnly *characteristic.Int    // pw only
 	ReadOnly  *characteristic.String // pr only (canary value)
 	NoEvent   *characteristic.Int    // pr pw (no ev)
+	BlobWO    *characteristic.Bytes  // tlv8, pw only, with a typed remote-update callback of the application
+	BlobUnset *characteristic.Bytes  // tlv8, pr pw ev, no value yet
 
 	// callback counters
 	cbMu      sync.Mutex
@@ -110,12 +112,24 @@ func newBed(c *fw.Ctx, o bedOpt) (*bed, error) {
 	unset.Perms = []string{characteristic.PermRead, characteristic.PermEvents}
 	unset.Value = nil
 	svc.AddCharacteristic(unset.Characteristic)
+	// tlv8 characteristics without a value: a write-only one whose application uses the typed callback, and a
+	// readable one that has not been set yet
+	b.BlobWO = characteristic.NewBytes("F105")
+	b.BlobWO.Perms = characteristic.PermsWriteOnly()
+	b.BlobWO.Value = nil
+	b.BlobWO.OnValueRemoteUpdate(func([]byte) {})
+	b.BlobUnset = characteristic.NewBytes("F106")
+	b.BlobUnset.Perms = characteristic.PermsAll()
+	b.BlobUnset.Value = nil
+	svc.AddCharacteristic(b.BlobWO.Characteristic)
+	svc.AddCharacteristic(b.BlobUnset.Characteristic)
 	b.Extra.AddService(svc)
 	if o.Variant == "values" {
 		b.Bulb.Lightbulb.Brightness.SetValue(77)
 		b.Switch.Switch.On.SetValue(true)
 		// values that are hostile to anything but a real JSON decoder
 		b.Switch.Info.Model.SetValue(`Lamp 24" rev A`)
+		b.Bulb.Info.Model.SetValue(strings.Repeat("a model name of more than sixty-four bytes ", 4)) // 168 bytes, through the typed setter
 		b.Switch.Info.Manufacturer.SetValue(`{"value":1,"iid":99}],"x":[`)
 		b.Switch.Info.SerialNumber.SetValue("back\\slash \" and , \"value\":")
 		b.Bulb.Info.FirmwareRevision.SetValue("1.0\n\"")
